@@ -16,6 +16,7 @@ import (
 
 	"github.com/ipfs/go-cid"
 	"github.com/ipld/go-ipld-prime/datamodel"
+	"github.com/ipld/go-ipld-prime/node/basicnode"
 	"pgregory.net/rapid"
 )
 
@@ -52,6 +53,41 @@ func c17RunScript(n datamodel.Node, script []c17Op) []string {
 					ks = append(ks, s+"="+c.String())
 				}
 				out[i] = fph(strings.Join(ks, ",")) + fmt.Sprintf("/%d", len(ks))
+			case "native-iterate":
+				// the typed accessor (hamt.UnixFSHAMTShard.Iterator): same pairs, no error channel
+				var ks []string
+				for it := n.(nativeDir).Iterator(); !it.Done(); {
+					k, v := it.Next()
+					if k == nil || v == nil {
+						ks = append(ks, "nil")
+						continue
+					}
+					ks = append(ks, k.String()+"="+cidOf(v.Link()).String())
+				}
+				out[i] = fph(strings.Join(ks, ",")) + fmt.Sprintf("/%d", len(ks))
+			case "native-lookup":
+				v := n.(nativeDir).Lookup(pbString(op.Arg))
+				if v == nil {
+					out[i] = "absent"
+					return
+				}
+				out[i] = cidOf(v.Link()).String()
+			case "lookup-node":
+				v, err := n.LookupByNode(basicnode.NewString(op.Arg))
+				if err != nil {
+					out[i] = "err:" + fmt.Sprintf("%T", err)
+					return
+				}
+				c, _ := linkOf(v)
+				out[i] = c.String()
+			case "lookup-segment":
+				v, err := n.LookupBySegment(datamodel.PathSegmentOfString(op.Arg))
+				if err != nil {
+					out[i] = "err:" + fmt.Sprintf("%T", err)
+					return
+				}
+				c, _ := linkOf(v)
+				out[i] = c.String()
 			case "length":
 				out[i] = fmt.Sprint(n.Length())
 			case "bytes":
@@ -79,7 +115,7 @@ func c17RunScript(n datamodel.Node, script []c17Op) []string {
 	return out
 }
 
-const c17Rule = "case = shared reified node (sharded directory with cold cache / warmed by a full iteration; multi-level file) used by 2..8 goroutines started behind a barrier, each running a drawn script of LookupByString(member | non-member), full MapIterator, Length, AsBytes, AsLargeBytes+Seek+Read on an own reader; " +
+const c17Rule = "case = shared reified node (sharded directory with cold cache / warmed by a full iteration; multi-level file) used by 2..8 goroutines started behind a barrier, each running a drawn script of lookups through any of the four entry points (member | non-member), full MapIterator, the typed Iterator, Length, AsBytes, AsLargeBytes+Seek+Read on an own reader; " +
 	"oracle = (1) the Go race detector (test binary built with -race: any report fails the run), (2) every result equals the same script run alone on a fresh node; non-trivial = >= 2 goroutines whose scripts reach the same child shard (by the hash-path model) of a cold node, or >= 2 goroutines reading a multi-level file; distinct by (node kind, goroutines, the drawn scripts)"
 
 func TestC17_P_ConcurrentReads(t *testing.T) {
@@ -142,7 +178,12 @@ func TestC17_P_ConcurrentReads(t *testing.T) {
 						op = c17Op{Kind: "read", A: a, B: int64(rapid.IntRange(0, 40).Draw(t, "b"))}
 					}
 				} else {
-					switch rapid.IntRange(0, 5).Draw(t, "dop") {
+					switch rapid.IntRange(0, 6).Draw(t, "dop") {
+					case 6:
+						op = c17Op{Kind: "native-iterate"}
+						for _, c := range tree.ShardsPreOrder() {
+							touched[i][c] = true
+						}
 					case 0:
 						op = c17Op{Kind: "iterate"}
 						for _, c := range tree.ShardsPreOrder() {
@@ -159,6 +200,8 @@ func TestC17_P_ConcurrentReads(t *testing.T) {
 						op = c17Op{Kind: "lookup", Arg: names[rapid.IntRange(0, len(names)-1).Draw(t, "member")]}
 					}
 					if op.Kind == "lookup" {
+						// any of the four lookup entry points
+						op.Kind = rapid.SampledFrom([]string{"lookup", "lookup", "native-lookup", "lookup-node", "lookup-segment"}).Draw(t, "entryPoint")
 						for _, c := range tree.HashPath(op.Arg) {
 							touched[i][c] = true
 						}
